@@ -270,7 +270,14 @@ func buildNg(c *sim.Ctx) *fb {
 			f.block("unk", 0x00000BAD, func() { f.raw(fillBytes(5, 4*c.Draw(8))) })
 		case 7: // new section
 			shb()
-			for k := 0; k < nif; k++ {
+			// (sometimes with fewer interfaces than the section before, or none:
+			// later packet blocks may then name an interface of the old section)
+			n2 := nif
+			if c.Chance(400) {
+				n2 = c.Draw(nif + 1)
+				c.Fault("section_with_fewer_interfaces")
+			}
+			for k := 0; k < n2; k++ {
 				idb(k)
 			}
 		}
